@@ -37,7 +37,7 @@ func runC18(c *Ctx) {
 		"A1: every parameter delivered by the ansi parser has at least one sub-parameter (csiDispatch appends ps before appending the parameter)",
 		"the evaluator's models of strings.Cut/Split/HasPrefix/TrimPrefix, strconv.Atoi and fmt.Sprintf are the Go standard library functions themselves",
 	}
-	// today: a 102 (34 templates x 3 consumers, 12 of them legacy-only), b 27, c 38, d 6, e 241
+	// today: a 114 (30 default templates x 3 consumers + 4 legacy templates x 2 producers x 3 consumers), b 27, c 38, d 6, e 241
 	c.expect("C18.a", 90)
 	c.expect("C18.b", 27)
 	c.expect("C18.c", 28)
@@ -451,7 +451,14 @@ func (w *c18World) ruleUnit(producers []*c18Producer, consumers []*c18Consumer) 
 						}
 					}
 					for _, key := range bl[j].keys {
-						a := getA(aggA, w.short(k.name)+"/"+key, k.fi.Decl.Pos())
+						// default templates: one obligation per consumer/template over all producers. Legacy-only
+						// variants: one obligation per producer→consumer/template, so that an open finding about one
+						// producer's legacy output can never hide another producer starting to emit the same form.
+						aggKey := w.short(k.name) + "/" + key
+						if strings.HasSuffix(key, c18LegacyTag) {
+							aggKey = w.short(p.name) + "→" + w.short(k.name) + "/" + key
+						}
+						a := getA(aggA, aggKey, k.fi.Decl.Pos())
 						a.prods[p.label()] = true
 						if good {
 							a.ok++
@@ -488,17 +495,6 @@ func (w *c18World) ruleUnit(producers []*c18Producer, consumers []*c18Consumer) 
 	sort.Strings(keys)
 	for _, k := range keys {
 		a := aggA[k]
-		// a template that only the VAXIS_FORCE_LEGACY_SGR variants emit is keyed as such, so that a
-		// known finding about the legacy forms can never hide the same template coming from a default encoder
-		onlyLegacy := len(a.prods) > 0
-		for pl := range a.prods {
-			if !strings.Contains(pl, "legacy-sgr") {
-				onlyLegacy = false
-			}
-		}
-		if onlyLegacy {
-			k += " [legacy-sgr]"
-		}
 		switch {
 		case a.undec != "":
 			c.undecided("C18.a", k, a.pos, "%s", a.undec)
